@@ -121,13 +121,13 @@ def run_chunk(exe, variant, profile, seed, start, count, prop, agg_lock_free):
                 last_start = None
             elif line.startswith("VIOL "):
                 d = parse_kv(line)
-                d["variant"], d["profile"], d["batchseed"] = variant, profile, seed
+                d["variant"], d["profile"], d["batchseed"], d["wstart"] = variant, profile, seed, nxt
                 d["sig"] = urllib.parse.unquote(d.get("sig", ""))
                 d["msg"] = urllib.parse.unquote(d.get("msg", ""))
                 res["viols"].append(d)
             elif line.startswith("CRASH "):
                 d = parse_kv(line)
-                d["variant"], d["profile"], d["batchseed"] = variant, profile, seed
+                d["variant"], d["profile"], d["batchseed"], d["wstart"] = variant, profile, seed, nxt
                 d["idx"] = last_start["idx"] if last_start else "?"
                 d["stderr_tail"] = err[-1500:]
                 res["crashes"].append(d)
@@ -152,7 +152,7 @@ def run_chunk(exe, variant, profile, seed, start, count, prop, agg_lock_free):
             kind = "sanitizer" if rc == 77 else "signal"
             op, owner = trace_death(exe, seed, profile, last_start["idx"])
             res["crashes"].append({"kind": kind, "sig": str(-rc if rc < 0 else rc), "seed": last_start["seed"], "step": "?", "op": op, "owner": owner, "variant": variant,
-                                   "profile": profile, "batchseed": seed, "idx": last_start["idx"], "stderr_tail": err[-1500:]})
+                                   "profile": profile, "batchseed": seed, "wstart": nxt, "idx": last_start["idx"], "stderr_tail": err[-1500:]})
         nxt = int(last_start["idx"]) + 1
     return res
 
@@ -180,9 +180,27 @@ def trace_death(exe, seed, profile, idx):
     return op, owner
 
 
-def sim_emit_plan(exe, seed, profile, idx, path):
-    out = subprocess.run([exe, "--data", DATA, "--emit-plan", "--seed", str(seed), "--profile", profile, "--index", str(idx)], stdout=subprocess.PIPE, text=True).stdout
-    open(path, "w").write(out)
+def sim_emit_plan(exe, seed, profile, idx, path, history_from=None):
+    """Write the plan of run idx; with history_from also the plans of the runs the same worker executed before it."""
+    first = int(idx) if history_from is None else int(history_from)
+    with open(path, "w") as f:
+        for i in range(first, int(idx) + 1):
+            f.write(subprocess.run([exe, "--data", DATA, "--emit-plan", "--seed", str(seed), "--profile", profile, "--index", str(i)], stdout=subprocess.PIPE, text=True).stdout)
+
+
+def minimise_with_fallback(exe, cands, planf, minf, extra):
+    """Minimise the first candidate that reproduces: alone, else together with the sessions its worker ran before it."""
+    last = None
+    for v in cands[:4]:
+        for hist in (None, v.get("wstart")):
+            if hist is not None and int(hist) >= int(v["idx"]):
+                continue
+            sim_emit_plan(exe, v["batchseed"], v["profile"], v["idx"], planf, hist)
+            r = subprocess.run([exe, "--data", DATA, "--minimise", planf] + extra + ["--variant", v["variant"], "-o", minf], stdout=subprocess.PIPE, stderr=subprocess.PIPE, text=True)
+            last = r
+            if r.returncode == 0 and os.path.exists(minf):
+                return v, r
+    return None, last
 
 
 def sim_replay(exe, path):
@@ -332,7 +350,7 @@ def main():
         crash_classes.setdefault((c.get("kind", ""), prop if prop in c.get("owner", "").split("+") else "", c.get("op", "")), []).append(c)
 
     os.makedirs(os.path.join(OUT, "replays"), exist_ok=True)
-    reported, known_hits, harness_fault = [], [], False
+    reported, known_hits, harness_fault, unreported = [], [], False, []
 
     def is_known(oracle, sig):
         for k in known:
@@ -350,16 +368,16 @@ def main():
         exe = exes[v["variant"]]
         base = os.path.join(OUT, "replays", "%s-%s" % (prop, v["seed"]))
         planf, minf = base + ".full.plan", base + ".plan"
-        sim_emit_plan(exe, v["batchseed"], v["profile"], v["idx"], planf)
-        if len(reported) >= MAXREP:  # many distinct classes: report the un-minimised plan of the remaining ones
-            reported.append({"oracle": oracle, "sig": sig, "replay": planf, "count": len(vs), "msg": v["msg"], "variant": v["variant"]})
+        if len(reported) >= MAXREP:  # many distinct classes: the first MAXREP are minimised and reported, the rest are counted
+            unreported.append((oracle, sig, len(vs)))
             continue
-        r = subprocess.run([exe, "--data", DATA, "--minimise", planf, "--prop", prop, "--oracle", oracle, "--sig", urllib.parse.quote(sig, safe=""), "--variant", v["variant"], "-o", minf],
-                           stdout=subprocess.PIPE, stderr=subprocess.PIPE, text=True)
-        if r.returncode != 0 or not os.path.exists(minf):
-            log("run_check: HARNESS FAULT: violation %s %s (seed %s, %s) did not reproduce in a fresh process: %s" % (oracle, sig, v["seed"], v["variant"], r.stdout.strip()[-300:]))
+        same_variant = [x for x in vs if x["variant"] == v["variant"]]
+        v2, r = minimise_with_fallback(exe, same_variant, planf, minf, ["--prop", prop, "--oracle", oracle, "--sig", urllib.parse.quote(sig, safe="")])
+        if v2 is None:
+            log("run_check: HARNESS FAULT: violation %s %s (seed %s, %s) did not reproduce in a fresh process, alone or with its worker's history: %s" % (oracle, sig, v["seed"], v["variant"], (r.stdout.strip()[-300:] if r else "")))
             harness_fault = True
             continue
+        v = v2
         hdr = dict(re.findall(r"^# (\w+)=(.*)$", open(minf).read(), re.M))
         ok = True
         for _ in range(2):  # replay gate: fresh process, twice, same violation and same event-log hash
@@ -386,10 +404,11 @@ def main():
         if str(c.get("idx")) == "?":
             harness_fault = True
             continue
-        sim_emit_plan(exe, c["batchseed"], c["profile"], c["idx"], planf)
-        r = subprocess.run([exe, "--data", DATA, "--minimise", planf, "--crash"] + (["--prop", owner] if owner else []) + ["--oracle", kind, "--variant", c["variant"], "-o", minf],
-                           stdout=subprocess.PIPE, stderr=subprocess.PIPE, text=True)
-        if r.returncode != 0 or not os.path.exists(minf):
+        same_variant = [x for x in cs if x["variant"] == c["variant"] and str(x.get("idx")) != "?"]
+        c2, r = minimise_with_fallback(exe, same_variant, planf, minf, ["--crash"] + (["--prop", owner] if owner else []) + ["--oracle", kind])
+        if c2 is not None:
+            c = c2
+        if c2 is None:
             log("run_check: HARNESS FAULT: crash (%s, op %s, seed %s, %s) did not reproduce in a fresh process" % (kind, op, c["seed"], c["variant"]))
             harness_fault = True
             continue
@@ -457,7 +476,7 @@ def main():
             "relational oracles cannot see an error that affects every instance identically (domain of the not-applicable properties C01-C09)",
         ],
         "wall_s": round(wall, 2),
-        "violations": len(reported),
+        "violations": len(reported) + len(unreported),
     }
     os.makedirs(os.path.join(OUT, "evidence"), exist_ok=True)
     json.dump(ev, open(os.path.join(OUT, "evidence", prop + ".json"), "w"), indent=1, sort_keys=True)
@@ -474,6 +493,8 @@ def main():
     for r in reported:
         log("  %s %s x%d: %s" % (r["oracle"], r["sig"], r["count"], r["msg"][:300]))
         log("VIOLATION property=%s replay=%s" % (prop, r["replay"]))
+    if unreported:
+        log("run_check: %d further distinct (oracle, signature) classes of %s violations were seen and not minimised, e.g. %s" % (len(unreported), prop, "; ".join("%s %s x%d" % u for u in unreported[:5])))
     if agg.runs == 0:
         log("run_check: HARNESS FAULT: no run completed")
         sys.exit(2)
